@@ -8,7 +8,12 @@ C23  Only the current leader serves reads and proposals, and reads are lineariza
 PARTIAL by nature.  Assumed (named hypotheses, never axioms): `RaftSafetyR` (commit index
 monotone, only committed entries are applied) and `ReadIndexContract` (ReadIndex returns an
 index ≥ the commit index at request time — which etcd/raft grants only to a node a quorum still
-acknowledges as leader of the current term).  "Current leader" in `C23_not_leader` is the
+acknowledges as leader of the current term).  The contract is assumed only for configurations
+with `quorumPerRead` (one `RawNode.ReadIndex` of its own per read, `ReadOnlySafe`): those are
+extracted facts, and the cluster harness attacks exactly this assumption with directed
+schedules (a deposed leader whose clock stands still; a read issued while an older ReadIndex
+round of the same peer is still unanswered and its acknowledgements are delayed across a
+leader change).  "Current leader" in `C23_not_leader` is the
 store's own raft state (`peer.Status().RaftState`): a deposed leader that has not yet heard of
 its successor passes this test; what keeps it from serving stale data is that ReadIndex /
 commit need a quorum — raft's part, validated by the cluster harness (deposed-leader probes),
@@ -56,19 +61,19 @@ commits, applies on any store, acknowledgements and any number of concurrent rea
 stores — a completed read was served from a state that contains every write acknowledged
 before the read was issued. -/
 theorem C23_read_lin (cfg : SvcCfg) (hcfg : cfg.ReadGood) (evs : List Ev)
-    (hflow : Flow cfg.read {} evs) (hraft : RaftSafetyR {} evs) (hri : ReadIndexContract {} evs) :
+    (hflow : Flow cfg.read {} evs) (hraft : RaftSafetyR {} evs) (hri : ReadIndexContract cfg.read {} evs) :
     ∀ r, ((rrun {} evs).rd r).pc = .done →
       ∀ i ∈ ((rrun {} evs).rd r).ackedBefore, i ≤ ((rrun {} evs).rd r).result := by
-  have hi := rinv_run (c := cfg.read) hcfg evs rinv_init hflow.ok hraft.ok hri.ok
+  have hi := rinv_run (c := cfg.read) hcfg evs rinv_init hflow.ok hraft.ok (hri.ok hcfg.2.2)
   intro r hp i hmem
   exact Nat.le_trans (hi.rd_idx r (Or.inr (Or.inr hp)) i hmem) (hi.rd_done r hp)
 
 /-- An acknowledged write is committed (so the hypothesis of `C23_read_lin` is about real
 writes): NoKV acknowledges only after the applier ran, raft applies only what is committed. -/
 theorem C23_acked_committed (cfg : SvcCfg) (hcfg : cfg.ReadGood) (evs : List Ev)
-    (hflow : Flow cfg.read {} evs) (hraft : RaftSafetyR {} evs) (hri : ReadIndexContract {} evs) :
+    (hflow : Flow cfg.read {} evs) (hraft : RaftSafetyR {} evs) (hri : ReadIndexContract cfg.read {} evs) :
     ∀ i ∈ (rrun {} evs).acked, i ≤ (rrun {} evs).commit :=
-  (rinv_run (c := cfg.read) hcfg evs rinv_init hflow.ok hraft.ok hri.ok).ack_le
+  (rinv_run (c := cfg.read) hcfg evs rinv_init hflow.ok hraft.ok (hri.ok hcfg.2.2)).ack_le
 
 /-- Why `WaitApplied` is part of the configuration: without it a freshly elected leader that
 has not applied entry 1 yet serves a read issued after write 1 was acknowledged from the empty
@@ -77,16 +82,16 @@ def staleRun : List Ev :=
   [.commit 1, .applyOne 1, .ack 1, .rdStart 7 2, .rdIndex 7 1, .rdWait 7, .rdExec 7]
 
 theorem C23_read_needs_wait (cfg : SvcCfg) (hcfg : cfg.NoWait) :
-    Flow cfg.read {} staleRun ∧ RaftSafetyR {} staleRun ∧ ReadIndexContract {} staleRun ∧
+    Flow cfg.read {} staleRun ∧ RaftSafetyR {} staleRun ∧ ReadIndexContract cfg.read {} staleRun ∧
     ((rrun {} staleRun).rd 7).pc = .done ∧
     ¬ (∀ i ∈ ((rrun {} staleRun).rd 7).ackedBefore, i ≤ ((rrun {} staleRun).rd 7).result) := by
-  have hc : cfg.read.readIndexFirst = true ∧ cfg.read.waitsApplied = false := hcfg
+  have hc : cfg.read.readIndexFirst = true ∧ cfg.read.waitsApplied = false ∧ cfg.read.quorumPerRead = true := hcfg
   generalize cfg.read = c at hc ⊢
-  obtain ⟨h1, h2⟩ := hc
-  rcases c with ⟨a, b⟩
-  simp only at h1 h2
-  subst h1 h2
-  refine ⟨⟨?_⟩, ⟨?_⟩, ⟨?_⟩, ?_, ?_⟩
+  obtain ⟨h1, h2, h3⟩ := hc
+  rcases c with ⟨a, b, q⟩
+  simp only at h1 h2 h3
+  subst h1 h2 h3
+  refine ⟨⟨?_⟩, ⟨?_⟩, ⟨fun _ => ?_⟩, ?_, ?_⟩
   · simp [staleRun, Along, flowOk, rstep, RSys.setRd]
     exact ⟨1, by simp⟩
   · simp [staleRun, Along, raftOk, rstep]
